@@ -675,8 +675,37 @@ static int pool_needs_page(ABTI_mem_pool_local_pool *lp)
     ABTI_mem_pool_global_pool *g = lp->p_global_pool;
     return lifo_empty(&g->bucket_lifo) && lifo_empty(&g->mem_page_lifo) && g->partial_bucket == NULL;
 }
+/* the next allocation needs a refill, no complete bucket is available, and the page the refill will start
+ * from holds fewer blocks than a bucket: the refill gathers those blocks and then has to obtain a fresh page */
+static int pool_needs_page_after_leftover(ABTI_mem_pool_local_pool *lp)
+{
+    if (!(lp->bucket_index == 0 && lp->buckets[0]->bucket_info.num_headers == 1))
+        return 0;
+    ABTI_mem_pool_global_pool *g = lp->p_global_pool;
+    if (!(lifo_empty(&g->bucket_lifo) && g->partial_bucket == NULL))
+        return 0;
+    void *top;
+    size_t tag;
+    ABTD_atomic_relaxed_load_non_atomic_tagged_ptr(&g->mem_page_lifo.p_top, &top, &tag);
+    if (!top)
+        return 0;
+    ABTI_mem_pool_page *pg = (ABTI_mem_pool_page *)top; /* lifo_elem is the first member */
+    size_t left = pg->mem_extra_size / g->header_size;
+    return left >= 1 && left < g->num_headers_per_bucket && pg->lifo_elem.p_next == NULL;
+}
 static int n_held;
 static ABT_thread g_held[256];
+static void s_stack_leftover(void)
+{
+    reg_primary();
+    ABTI_xstream *px = ABTI_xstream_get_ptr(R_xs[0]);
+    CK(ABT_pool_create_basic(ABT_POOL_FIFO, ABT_POOL_ACCESS_MPMC, ABT_FALSE, &g_pool1));
+    while (!pool_needs_page_after_leftover(&px->mem_pool_stack)) {
+        if (n_held >= 250)
+            DIE("stack pool never reaches the leftover state");
+        CK(ABT_thread_create(g_pool1, wu_count, NULL, ABT_THREAD_ATTR_NULL, &g_held[n_held++]));
+    }
+}
 static void s_stack_exhausted(void)
 {
     reg_primary();
@@ -1291,6 +1320,7 @@ static const scen_t g_scens[] = {
     { "thread_create", 0, NUL(ABT_THREAD_NULL), s_plain, c_thread_create, hs_generic, uf_thread, NULL },
     { "thread_create_refill", F_LPMALLOC | F_SMALLPAGES | F_LATEFU, NUL(ABT_THREAD_NULL), s_stack_exhausted, c_thread_create, hs_generic, uf_thread, td_held },
     { "thread_create_refill_mmap", F_SMALLPAGES | F_LATEFU, NUL(ABT_THREAD_NULL), s_stack_exhausted, c_thread_create, hs_generic, uf_thread, td_held },
+    { "thread_create_refill_leftover", F_LPMALLOC | F_SMALLPAGES | F_LATEFU, NUL(ABT_THREAD_NULL), s_stack_leftover, c_thread_create, hs_generic, uf_thread, td_held },
     { "thread_create_stacksize", 0, NUL(ABT_THREAD_NULL), s_attr_stacksize, c_thread_create_attr, hs_generic, uf_thread, td_attr },
     { "thread_create_userstack", 0, NUL(ABT_THREAD_NULL), s_attr_userstack, c_thread_create_attr, hs_generic, uf_thread, td_attr },
     { "thread_create_cb", 0, NUL(ABT_THREAD_NULL), s_attr_cb, c_thread_create_attr, hs_generic, uf_thread, td_attr },
